@@ -21,9 +21,10 @@ def _run(job):
 
 def _sig(o, clause):
     j = o["job"]
-    if clause.startswith("pathB") and j.get("predicted_lost"):
-        return f"{PROP}:{clause}:lost_by_survey_dump:" + "+".join(sorted(j["predicted_lost"]))
-    return f"{PROP}:{clause}" + (":unpredicted_loss" if clause.startswith("pathB") else "")
+    if (clause.startswith("pathB") or clause == "converted") and j.get("predicted_lost"):
+        # one signature per root cause; a form combining several known causes is attributed to the first (alphabetical)
+        return f"{PROP}:lost_by_survey_dump:" + sorted(j["predicted_lost"])[0]
+    return f"{PROP}:{clause}" + (":unpredicted_loss" if clause.startswith("pathB") or clause == "converted" else "")
 
 
 def run(rep):
@@ -31,7 +32,7 @@ def run(rep):
 
     rep.rule = ("JsonIR.tla abstracts a form to the (element kind, field) pairs the XForm depends on and transcribes what the survey's own dump deletes; TLC "
                 "checks PathBFaithful on the transcription (it is *expected* to fail exactly for group bind and option extra_data - the model's prediction) and "
-                "enumerates every set of <= 3 (quick) / 4 (thorough) of 21 features. Each set is built as a real form and both round trips run on the real code: "
+                "enumerates every set of <= 2 (quick) / 3 (thorough) of 33 features. Each set is built as a real form and both round trips run on the real code: "
                 "A = workbook_to_json dict -> JSON text -> dict -> builder -> XForm (must equal direct conversion, byte for byte); B = survey.to_json_dict -> JSON "
                 "text -> builder -> survey (dump must be stable, XForm must equal the original). TLC (Trace_JsonIR) judges the four clauses; a path-B loss is "
                 "classified by the features the model predicted to be lost. TLC-generated row structures decorated with every feature are run as well.")
@@ -41,7 +42,7 @@ def run(rep):
     rep.extra["model_predicts_pathB_loss"] = bool(r["violation"])
     if not r["violation"]:
         rep.drift.append("JsonIR transcription no longer predicts a path-B loss; update DumpDrops")
-    n = 3 if rep.tier == "quick" else 4
+    n = 2 if rep.tier == "quick" else 3
     cases, g = tlc.generate("Gen_JsonIR", corpus._cfg("Gen_JsonIR.cfg", f"SPECIFICATION JSpec\nCONSTANT MaxFeatures = {n}\nCONSTRAINT Emit\nCHECK_DEADLOCK FALSE\n"), tag="genjson", timeout=900)
     seen, jobs = set(), []
     for c in cases:
